@@ -486,8 +486,8 @@ EmitInv ==
   (Done /\ Emit /\ Interesting) =>
     IF prm.mm = "name"
     THEN PrintT(<<"SCN", ToJson([family |-> Family, prm |-> prm, steps |-> hist, name |-> CanonNameOf(prm.pp.pat, prm.pp.psks),
-                                 name2 |-> OddName])>>)
+                                 name2 |-> OddName, oddname |-> TRUE])>>)
     ELSE IF OddNames
-    THEN PrintT(<<"SCN", ToJson([family |-> Family, prm |-> prm, steps |-> hist, name |-> OddName])>>)
+    THEN PrintT(<<"SCN", ToJson([family |-> Family, prm |-> prm, steps |-> hist, name |-> OddName, oddname |-> TRUE])>>)
     ELSE PrintT(<<"SCN", ToJson([family |-> Family, prm |-> prm, steps |-> hist])>>)
 =============================================================================
